@@ -157,39 +157,39 @@ Proof.
   rewrite E in H. destruct Hp as [->|Hp]; [exact E | now apply IH].
 Qed.
 
-(** * the saturation loop *)
+(** * the saturation loop (one pass function per iteration index) *)
 Section Sat.
-  Context {F : Type} (pass : list F -> list F).
-  Hypothesis pass_ext : forall s, extends s (pass s).
+  Context {F : Type} (pass : nat -> list F -> list F).
+  Hypothesis pass_ext : forall i s, extends s (pass i s).
 
-  Lemma sat_loop_fix fuel s r : sat_loop fuel pass s = Some r -> pass r = r.
+  Lemma sat_loop_fix fuel : forall i s r, sat_loop fuel pass i s = Some r -> exists j, pass j r = r.
   Proof.
-    revert s; induction fuel as [|k IH]; intros s; simpl; [discriminate|].
-    destruct (length (pass s) =? length s) eqn:E.
+    induction fuel as [|k IH]; intros i s r; simpl; [discriminate|].
+    destruct (length (pass i s) =? length s) eqn:E.
     - intros H; inversion H; subst r. apply Nat.eqb_eq in E.
-      assert (pass s = s) as -> by (apply extends_same_length; auto).
-      apply extends_same_length; auto.
+      assert (pass i s = s) as -> by (apply extends_same_length; auto).
+      exists i. apply extends_same_length; auto.
     - apply IH.
   Qed.
 
-  Lemma sat_loop_inv (P : list F -> Prop) fuel s r :
-    (forall x, P x -> P (pass x)) -> P s -> sat_loop fuel pass s = Some r -> P r.
+  Lemma sat_loop_inv (P : list F -> Prop) fuel : forall i s r,
+    (forall j x, P x -> P (pass j x)) -> P s -> sat_loop fuel pass i s = Some r -> P r.
   Proof.
-    intros HP. revert s; induction fuel as [|k IH]; intros s Hs; simpl; [discriminate|].
-    destruct (length (pass s) =? length s).
+    induction fuel as [|k IH]; intros i s r HP Hs; simpl; [discriminate|].
+    destruct (length (pass i s) =? length s).
     - intros H; inversion H; subst r. now apply HP.
-    - apply IH. now apply HP.
+    - apply IH; [exact HP | now apply HP].
   Qed.
 
-  Lemma sat_loop_terminates (U : list F) fuel s :
-    (forall x, NoDup x -> incl x U -> NoDup (pass x) /\ incl (pass x) U) ->
+  Lemma sat_loop_terminates (U : list F) fuel : forall i s,
+    (forall j x, NoDup x -> incl x U -> NoDup (pass j x) /\ incl (pass j x) U) ->
     NoDup s -> incl s U -> length U < length s + fuel ->
-    sat_loop fuel pass s <> None.
+    sat_loop fuel pass i s <> None.
   Proof.
-    intros HU. revert s; induction fuel as [|k IH]; intros s Hn Hi Hl.
+    induction fuel as [|k IH]; intros i s HU Hn Hi Hl.
     - pose proof (NoDup_incl_length Hn Hi). lia.
-    - simpl. destruct (length (pass s) =? length s) eqn:E; [discriminate|].
-      apply Nat.eqb_neq in E. destruct (HU s Hn Hi) as [Hn' Hi'].
-      apply IH; auto. pose proof (extends_length _ _ (pass_ext s)). lia.
+    - simpl. destruct (length (pass i s) =? length s) eqn:E; [discriminate|].
+      apply Nat.eqb_neq in E. destruct (HU i s Hn Hi) as [Hn' Hi'].
+      apply IH; auto. pose proof (extends_length _ _ (pass_ext i s)). lia.
   Qed.
 End Sat.
